@@ -1,6 +1,7 @@
 import Model.Ingress
 import Driver.Ops.Policy
 import Driver.Ops.Relay
+import Driver.Ops.Edge
 namespace Slimta.Driver
 open Slimta
 
@@ -34,6 +35,11 @@ def ingressOp (args : List String) : String :=
               s!"{id}=" ++ (match q.msgs id with | some m => showNats m.rcpts ++ s!"@{m.attempts}" | none => "none")) ++
             " handed=" ++ "|".intercalate (q.handed.reverse.map fun (id, r, a) => s!"{id}=" ++ showNats r ++ s!"@{a}") ++
             " active=" ++ showNats (ids.filter fun id => q.s.active.contains id)
+    | _, _ => "bad-op"
+  | ["httphop", n, ws] =>
+    -- HttpRelay -> WsgiEdge -> Queue whose storage behaves as `ws`
+    match n.toNat?, (ws.splitOn ",").mapM parseWrite with
+    | some k, some l => showResult (Ingress.httpHop k l)
     | _, _ => "bad-op"
   | "proxyhop" :: rest =>
     -- edge -> ProxyQueue -> SMTP relay -> a next hop scripted as for `relay smtp`; error objects carry 550 / 450
